@@ -3,7 +3,7 @@
    forexpand.go (run against gmars on every run: hook kind 21 and whole programs),
    Render.unroll the manual unrolling of an abstract program. *)
 From GM Require Import Base Text Token Lexer Scanner ExprSpec ExprEval ForExpand Parser Compile Sim Prog Meaning Render AsmSpec
-     C05Lexer C05Expander C08Proof C08Block C08Scan C08Passes.
+     C05Lexer C05Expander C08Proof C08Block C08Scan C08Passes C08Flat.
 From Coq Require Import Lia.
 Open Scope N_scope.
 
@@ -232,6 +232,25 @@ Proof.
     [vm_compute; reflexivity|vm_compute; reflexivity|exact unrolls_in_one_step|unfold max_for_passes; lia|vm_compute; reflexivity|vm_compute; reflexivity].
 Qed.
 End C08Example.
+
+(* the simplest blocks, closed: a FOR block without labels or counter whose body is a run of unlabelled lines whose
+   first words are neither FOR nor ROF (flat_bline) is replaced, in one pass, by its body written out count times -
+   the derivation of `unrolls` constructed for every such stream (any lines in front, any count expression that
+   evaluates with the symbols in front, any tail), given only that the written-out stream has no FOR left *)
+Theorem C08_plain_block_unrolls_partial :
+  forall cfg pre forw es body rofw skip rest syms v,
+    Forall pline_ok pre ->
+    t_typ forw = tokText -> tok_is_pseudo forw = true -> lower_is (t_val forw) "for" = true -> Forall plain_tok es ->
+    front_symbols pre = Some syms ->
+    expand_and_evaluate (filter noncomment es) (with_constants cfg syms) = Some (EOk v) ->
+    Forall flat_bline body ->
+    t_typ rofw = tokText -> tok_is_pseudo rofw = true -> lower_is (t_val rofw) "for" = false -> lower_is (t_val rofw) "rof" = true ->
+    Forall plain_tok skip -> Forall nonterm rest ->
+    let out := flat_map pl_out pre ++ flat_map (fun _ : N => flat_map bl_toks body) (nseq 1 (Z.to_nat v)) ++ rest ++ [tEOF] in
+    unrolls cfg 0 out out ->
+    unrolls cfg 1 (flat_map pl_toks pre ++ (forw :: es ++ [nlt]) ++ flat_map bl_toks body ++ rofw :: skip ++ (nlt :: rest ++ [tEOF])) out.
+Proof. exact flat_block_unrolls. Qed.
+Print Assumptions C08_plain_block_unrolls_partial.
 
 (* missing: that the token-level relation `unrolls` holds between the rendering of an abstract program and the
    rendering of its unrolling (Render.unroll) for every program - each instance is a finite derivation like the
